@@ -91,6 +91,7 @@ func runChaos(prop, part, tier string, seed uint64, idx int) core.Result {
 	}
 	steps := 15 + rng.IntN(16)
 	for i := 0; i < steps && r.Violations() == 0; i++ {
+		ch.checkCommitSupport()
 		switch p := rng.IntN(100); {
 		case p < 30:
 			ch.write(1+rng.IntN(20), rng.IntN(3) > 0)
